@@ -543,15 +543,16 @@ def i_BRBS(i, fmap):
 
 @__pc
 def i_CALL(i, fmap):
+    # the 22-bit target is truncated to the size of the program counter
     adr = i.operands[0]
     _push_(fmap, fmap(pc))
-    fmap[pc] = fmap(adr)
+    fmap[pc] = fmap(adr)[0 : pc.size]
 
 
 @__pc
 def i_JMP(i, fmap):
     adr = i.operands[0]
-    fmap[pc] = fmap(adr)
+    fmap[pc] = fmap(adr)[0 : pc.size]
 
 
 @__pc
